@@ -62,3 +62,31 @@ func VH_Self_JSONInto() {
 	verifrt.Assert(err == nil && fresh != nil && fresh != live.Inner && fresh.A == 1 && fresh.B == "one", "decoding into a nil pointer allocates")
 	verifrt.Reach("end")
 }
+
+type vhSelfP struct {
+	A []string `json:"a,omitempty"`
+	N int      `json:"n"`
+}
+type vhSelfT struct {
+	Ps []*vhSelfP `json:"ps"`
+	S  string     `json:"s,omitempty"`
+}
+
+// VH_Self_JSONReuse: decoding into a target that already holds data merges: keys dropped
+// by omitempty keep their old value, existing slice elements (pointees) are decoded into.
+func VH_Self_JSONReuse() {
+	var reused vhSelfT
+	n2 := verifrt.IntRange("n2", 2, 3)
+	enc1, _ := json.Marshal(vhSelfT{Ps: []*vhSelfP{{A: []string{"x"}, N: 1}}, S: "one"})
+	verifrt.Assert(json.Unmarshal(enc1, &reused) == nil, "first decode")
+	verifrt.Assert(len(reused.Ps) == 1 && len(reused.Ps[0].A) == 1 && reused.Ps[0].N == 1 && reused.S == "one", "first decode fills the fresh target")
+	p0 := reused.Ps[0]
+	enc2, _ := json.Marshal(vhSelfT{Ps: []*vhSelfP{{A: nil, N: n2}}})
+	verifrt.Assert(json.Unmarshal(enc2, &reused) == nil, "second decode")
+	verifrt.Assert(reused.Ps[0] == p0, "the existing element is decoded into, not replaced")
+	verifrt.Assert(reused.Ps[0].N == n2, "present keys overwrite")
+	verifrt.Assert(len(reused.Ps[0].A) == 1 && reused.S == "one", "keys dropped by omitempty keep their stale value")
+	var fresh vhSelfT
+	verifrt.Assert(json.Unmarshal(enc2, &fresh) == nil && len(fresh.Ps) == 1 && fresh.Ps[0] != p0 && len(fresh.Ps[0].A) == 0 && fresh.S == "" && fresh.Ps[0].N == n2, "a fresh target sees only the document")
+	verifrt.Reach("end")
+}
